@@ -112,7 +112,9 @@ Definition lval_of_toks (ts : list tok) : option (lval * list tok) :=
      pyint <text>                                -> ok <int> | err code
      ipok <text>                                 -> 0/1
      parse <bytes>                               -> none | some n <sseg>*        (Spec)
-     parsec <pad_length> <bytes>                 -> none | some n <sseg>*        (Spec) *)
+     parsec <pad_length> <bytes>                 -> none | some n <sseg>*        (Spec)
+     parsex <bytes> / parsecx <pad_length> <bytes>   the same reading with format code 0b11 taken
+                                                 for "32-bit" (used ONLY to classify a failure) *)
 Definition handle (ts : list tok) : list tok :=
   match ts with
   | cmd :: TInt padded :: r =>
@@ -133,6 +135,11 @@ Definition handle (ts : list tok) : list tok :=
       else if is_sym "parsec" cmd then
         match r with
         | [TBytes b] => toks_of_parse (parse_counted (bool_of padded) b)
+        | _ => [sym "ERR"; sym "badline"]
+        end
+      else if is_sym "parsecx" cmd then
+        match r with
+        | [TBytes b] => toks_of_parse (parse_counted_with 3 (bool_of padded) b)
         | _ => [sym "ERR"; sym "badline"]
         end
       else [sym "ERR"; sym "badcmd"]
@@ -160,6 +167,7 @@ Definition handle (ts : list tok) : list tok :=
       else [sym "ERR"; sym "badcmd"]
   | [cmd; TBytes b] =>
       if is_sym "parse" cmd then toks_of_parse (parse_padded_epath b)
+      else if is_sym "parsex" cmd then toks_of_parse (parse_padded_epath_with 3 b)
       else [sym "ERR"; sym "badcmd"]
   | cmd :: r =>
       if is_sym "reqpath" cmd then
